@@ -1103,3 +1103,148 @@ def Joined(xs: Any, empty: Any = b'') -> Any:
     for x in xs:
         out = out + x if not isinstance(x, SStr) or isinstance(out, SStr) else x.__radd__(out)
     return out
+
+
+# ---------------------------------------------------------------------------
+# symbolic dict  str -> str   (header maps)
+
+_OPT = None
+
+
+def opt_sort() -> Any:
+    global _OPT
+    if _OPT is None:
+        d = z3.Datatype('OptStr')
+        d.declare('none')
+        d.declare('some', ('val', z3.StringSort()))
+        _OPT = d.create()
+    return _OPT
+
+
+class SDict:
+    """Mutable dict from str keys to str values as an SMT array String -> Option String."""
+
+    __pyvc_symbolic__ = True
+    __pyvc_stub__ = True
+
+    def __init__(self, arr: Any = None) -> None:
+        O = opt_sort()
+        self.arr = arr if arr is not None else z3.K(z3.StringSort(), O.none)
+
+    @staticmethod
+    def fresh(ctx: Any, base: str = 'map') -> 'SDict':
+        if getattr(ctx, 'concrete', False):
+            return {}  # type: ignore[return-value]
+        return SDict(ctx.fresh_const(base, z3.ArraySort(z3.StringSort(), opt_sort())))
+
+    @staticmethod
+    def of(d: Dict[Any, Any]) -> 'SDict':
+        sd = SDict()
+        for k, v in d.items():
+            sd.__pyvc_setitem__(k, v)
+        return sd
+
+    def snapshot(self) -> Any:
+        return self.arr
+
+    def has(self, k: Any) -> Any:
+        O = opt_sort()
+        return mk_bool(O.is_some(z3.Select(self.arr, _s(k))))
+
+    def value(self, k: Any) -> Any:
+        """The stored value (meaningful only where has(k))."""
+        O = opt_sort()
+        return mk_str(O.val(z3.Select(self.arr, _s(k))), 'str')
+
+    def lookup(self, k: Any) -> Any:
+        """Non-forking Option view: (present, value)."""
+        return self.has(k), self.value(k)
+
+    def get(self, k: Any, default: Any = None) -> Any:
+        if bool(self.has(k)):
+            return self.value(k)
+        return default
+
+    def __pyvc_getitem__(self, k: Any) -> Any:
+        if bool(self.has(k)):
+            return self.value(k)
+        cur().raise_py(KeyError, k)
+
+    def __pyvc_setitem__(self, k: Any, v: Any) -> None:
+        O = opt_sort()
+        if _kind(v) != 'str':
+            raise Unreached('SDict value that is not a str: %r' % (v,))
+        self.arr = z3.simplify(z3.Store(self.arr, _s(k), O.some(_s(v))))
+
+    def __pyvc_delitem__(self, k: Any) -> None:
+        O = opt_sort()
+        if not bool(self.has(k)):
+            cur().raise_py(KeyError, k)
+        self.arr = z3.simplify(z3.Store(self.arr, _s(k), O.none))
+
+    def pop(self, k: Any, *default: Any) -> Any:
+        O = opt_sort()
+        if bool(self.has(k)):
+            v = self.value(k)
+            self.arr = z3.simplify(z3.Store(self.arr, _s(k), O.none))
+            return v
+        if default:
+            return default[0]
+        cur().raise_py(KeyError, k)
+
+    def setdefault(self, k: Any, v: Any) -> Any:
+        if bool(self.has(k)):
+            return self.value(k)
+        self.__pyvc_setitem__(k, v)
+        return v
+
+    def __pyvc_contains__(self, k: Any) -> Any:
+        return self.has(k)
+
+    def copy(self) -> 'SDict':
+        return SDict(self.arr)
+
+    def items(self) -> 'SDictItems':
+        return SDictItems(self.arr)
+
+    def __pyvc_items__(self) -> Any:
+        raise Unreached('enumeration of a symbolic dict')
+
+    def __pyvc_havoc__(self, ctx: 'Ctx', base: str) -> 'SDict':
+        return SDict.fresh(ctx, base)
+
+    def __pyvc_eq__(self, o: Any) -> Any:
+        if isinstance(o, SDict):
+            return mk_bool(self.arr == o.arr)
+        if isinstance(o, dict):
+            return mk_bool(self.arr == SDict.of(o).arr)
+        return False
+
+    def __pyvc_truth__(self) -> Any:
+        O = opt_sort()
+        return mk_bool(self.arr != z3.K(z3.StringSort(), O.none))
+
+    def __repr__(self) -> str:
+        return '<SDict %s>' % (str(self.arr)[:60],)
+
+
+class SDictItems:
+    """dict.items() of a symbolic dict at one moment: each key exactly once (dict semantics)."""
+
+    __pyvc_symbolic__ = True
+
+    def __init__(self, arr: Any) -> None:
+        self.arr = arr
+
+    def __pyvc_iter__(self) -> Any:
+        raise Unreached('iteration over the items of a symbolic dict')
+
+
+def Store(arr: Any, k: Any, v: Any) -> Any:
+    """Spec-side: the map `arr` with k := v (v None deletes)."""
+    O = opt_sort()
+    return z3.simplify(z3.Store(arr, _s(k), O.none if v is None else O.some(_s(v))))
+
+
+def MapEq(a: Any, b: Any) -> Any:
+    return mk_bool(a == b)
